@@ -1,5 +1,5 @@
 """C16 -- FITS output followed by input reproduces values, orientation and pixel scale."""
-import os, shutil, tempfile, itertools, contextlib
+import os, shutil, tempfile, itertools, contextlib, pathlib
 from fractions import Fraction
 import numpy as np
 from harness.common import cz, cq, cbool, clist, ctup, copt, import_aa
@@ -29,7 +29,8 @@ EXHAUSTIVE = {
              "x {Array1D, Mask1D} x {file, hdu}; all boolean masks with H*W <= 6 (Mask2D and masked Array2D through the hdu route, every third also through a file); all file-system "
              "scenarios {bare name, 1 dir, 2 dirs} x {directory absent, partly present, present} x {target absent, present} x overwrite "
              "x flip x {relative, absolute path}; hdu index in [-3..2] on 1- and 2-HDU files and on assembled 1-, 2-, 3-HDU files (2-D and 1-D); "
-             "histories: 17 derivations x {slim, store_native, native_binned_only} x {Array2D, Kernel2D} x flip (one of 5 partially masked shapes each) and x store_native x flip for Array1D, each observed through np.array(.native), the HDU route and the file route; 11-13 re-use templates x storage x 3 shapes (2-D) and x store_native x 3 masks (1-D); 6 Mask2D templates x 6 shapes x flip; 4 Mask1D templates x 3 masks x flip; 130 random histories",
+             "histories: 17 derivations x {slim, store_native, native_binned_only} x {Array2D, Kernel2D} x flip (one of 5 partially masked shapes each) and x store_native x flip for Array1D, each observed through np.array(.native), the HDU route and the file route; 11-13 re-use templates x storage x 3 shapes (2-D) and x store_native x 3 masks (1-D); 6 Mask2D templates x 6 shapes x flip; 4 Mask1D templates x 3 masks x flip; 130 random histories; phase 3: 16 + 9 ways of building an Array2D / Kernel2D x {file, hdu} x flip, 9 mask kinds x 4 ops x flip, 12 + 7 1-D kinds, 3 scale kinds, 2 path kinds x every file-system scenario x overwrite, "
+             "6 foreign dtypes x 3 hdu indices x 7 ops, 6 input kinds x 3 storages x 5 histories, 5 session templates x flip x 2 trees + 16 random sessions, 28 sibling cases, 40+ Imaging hdu triples, 7 scale pairs x flip x 4-6 ops",
     "thorough": "as quick with shapes <= 6x6, masks with H*W <= 9 (sampled above 2^9), 1-D lengths 1..9, plus 10x the random budget; histories: every derivation x storage x class x flip "
                 "on all 6 history shapes, every re-use template x storage x shape x flip, 1500 random histories",
 
@@ -138,6 +139,8 @@ def write_raw(path, content):
         hd = fits.Header()
         for k, v in h["hdr"]: hd.append((k, float(v)))
         data = np.array(h["data"], dtype="float64")
+        if h.get("dt"):                       # a FOREIGN file: integer / float32 / big-endian data as other software writes it
+            assert np.array_equal(data.astype(h["dt"]).astype("float64"), data); data = data.astype(h["dt"])
         hs.append(fits.PrimaryHDU(data, header=hd) if i == 0 else fits.ImageHDU(data, header=hd))
     fits.HDUList(hs).writeto(path)
 
@@ -183,6 +186,9 @@ def sandbox(flip, fs0=None):
         os.chdir(cwd)
         shutil.rmtree(root, ignore_errors=True)
 
+def norm_fs(fs):
+    return {"dirs": sorted(list(d) for d in fs["dirs"]),
+            "files": sorted([[list(p_), [{"data": h["data"], "hdr": [list(c) for c in h["hdr"]]} for h in c]] for p_, c in fs["files"]], key=lambda e: e[0])}
 def fpath(root, p, absolute): return os.path.join(root, rel_path(p)) if absolute else rel_path(p)
 
 def obs_arr2(o, with_headers=True):
@@ -199,18 +205,145 @@ def obs_m1(m): return [np.array(m).astype(bool).tolist(), float(m.pixel_scales[0
 def okmap(r, f): return ("ok", f(r[1])) if r[0] == "ok" else r
 def raw_of(h): return {"data": np.array(h.data, dtype="float64").tolist(), "hdr": pix_cards(h.header)}
 
-def mk_obj2(aa, kd, vals, mask, sc):
+# ----------------------------------------------------------------------------- input KINDS (phase 3)
+# The logical input of a case (values, mask, pixel scales, path) stays the same; `src` / `msrc` / `sk` / `pk` say HOW it is
+# handed to the library: python lists, int64 / float32 / Fortran-ordered / strided ndarrays, slim values, an autoarray
+# object as `values`, subclass instances, the constructor classmethods (full / ones / zeros / all_false / apply_mask),
+# an object DERIVED by a previous read (from_primary_hdu / from_fits), pixel scales as float / list / numpy scalars,
+# paths as str / pathlib.Path / "./name".
+_SUB = {}
+def subclass(aa, name):
+    """a user subclass of an accepted class (dispatch on type(x) instead of isinstance would treat it differently)"""
+    if name not in _SUB: _SUB[name] = type("PavSub" + name, (getattr(aa, name),), {})
+    return _SUB[name]
+def as_path(path, pk):
+    if pk == "Path": return pathlib.Path(path)
+    if pk == "dot" and not os.path.isabs(path): return "." + os.sep + path
+    return path
+def as_sc2(sc, sk):
+    if sk == "float": assert sc[0] == sc[1]; return float(sc[0])
+    if sk == "list": return [float(sc[0]), float(sc[1])]
+    if sk == "np": return (np.float64(sc[0]), np.float64(sc[1]))
+    return (float(sc[0]), float(sc[1]))
+def as_sc1(sc, sk):
+    if sk == "tuple": return (float(sc),)
+    return float(sc)
+def as_values(vals, src):
     v = np.array(vals, dtype="float64")
-    if kd == "kernel": return aa.Kernel2D.no_mask(values=v, pixel_scales=tuple(sc))
-    if not any(any(r) for r in mask) and (len(vals) + len(vals[0])) % 2 == 0:
-        return aa.Array2D.no_mask(values=v, pixel_scales=tuple(sc))
-    return aa.Array2D(values=v, mask=aa.Mask2D(mask=np.array(mask, dtype=bool), pixel_scales=tuple(sc)))
-def mk_obj1(aa, vals, mask, sc):
-    if not any(mask) and len(vals) % 2 == 0: return aa.Array1D.no_mask(values=np.array(vals, dtype="float64"), pixel_scales=float(sc))
-    return aa.Array1D(values=np.array(vals, dtype="float64"), mask=aa.Mask1D(mask=np.array(mask, dtype=bool), pixel_scales=float(sc)))
+    if src == "list": return [list(map(float, r)) for r in vals] if v.ndim == 2 else [float(x) for x in vals]
+    if src == "int": out = v.astype("int64")
+    elif src == "f32": out = v.astype("float32")
+    elif src == "fortran": out = np.asfortranarray(v)
+    elif src == "view":
+        big = np.full(tuple(3 * n + 1 for n in v.shape), 777.0)
+        sl = tuple(slice(1, None, 3) for _ in v.shape)
+        big[sl] = v; out = big[sl]
+        assert not out.flags["C_CONTIGUOUS"] or out.size <= 1
+    else: return v
+    assert np.array_equal(np.asarray(out, dtype="float64"), v), "the kind must hold the logical values exactly"
+    return out
+def mk_mask2(aa, mask, sc, msrc=None, sk=None):
+    b = np.array(mask, dtype=bool); ps = as_sc2(sc, sk)
+    if msrc == "list": return aa.Mask2D(mask=[list(map(bool, r)) for r in mask], pixel_scales=ps)
+    if msrc == "int": return aa.Mask2D(mask=b.astype("int64"), pixel_scales=ps)
+    if msrc == "float": return aa.Mask2D(mask=b.astype("float64"), pixel_scales=ps)
+    if msrc == "fortran": return aa.Mask2D(mask=np.asfortranarray(b), pixel_scales=ps)
+    if msrc == "invert": return aa.Mask2D(mask=np.invert(b), pixel_scales=ps, invert=True)
+    if msrc == "self": return aa.Mask2D(mask=aa.Mask2D(mask=b, pixel_scales=ps), pixel_scales=ps)
+    if msrc == "sub": return subclass(aa, "Mask2D")(mask=b, pixel_scales=ps)
+    if msrc == "all_false": assert not b.any(); return aa.Mask2D.all_false(shape_native=b.shape, pixel_scales=ps)
+    if msrc == "reread": return aa.Mask2D.from_primary_hdu(aa.Mask2D(mask=b, pixel_scales=ps).hdu_for_output)
+    return aa.Mask2D(mask=b, pixel_scales=ps)
+def mk_mask1(aa, mask, sc, msrc=None, sk=None):
+    b = np.array(mask, dtype=bool); ps = as_sc1(sc, sk)
+    if msrc == "list": return aa.Mask1D(mask=[bool(x) for x in mask], pixel_scales=ps)
+    if msrc == "int": return aa.Mask1D(mask=b.astype("int64"), pixel_scales=ps)
+    if msrc == "float": return aa.Mask1D(mask=b.astype("float64"), pixel_scales=ps)
+    if msrc == "invert": return aa.Mask1D(mask=np.invert(b), pixel_scales=ps, invert=True)
+    if msrc == "sub": return subclass(aa, "Mask1D")(mask=b, pixel_scales=ps)
+    if msrc == "all_false": assert not b.any(); return aa.Mask1D.all_false(shape_slim=(len(mask),), pixel_scales=ps)
+    if msrc == "reread": return aa.Mask1D.from_primary_hdu(aa.Mask1D(mask=b, pixel_scales=ps).hdu_for_output)
+    return aa.Mask1D(mask=b, pixel_scales=ps)
+def cls2(aa, kd, src=None):
+    name = "Kernel2D" if kd == "kernel" else "Array2D"
+    return subclass(aa, name) if src == "sub" else getattr(aa, name)
+def zero_filled2(vals, mask): return [[0.0 if b else float(v) for v, b in zip(rv, rb)] for rv, rb in zip(vals, mask)]
+def zero_filled1(vals, mask): return [0.0 if b else float(v) for v, b in zip(vals, mask)]
+
+def mk_obj2(aa, kd, vals, mask, sc, src=None, msrc=None, sk=None, mask0=None):
+    """the object whose logical content is (vals, mask, sc); see the comment on input kinds"""
+    ps = as_sc2(sc, sk)
+    anym = any(any(r) for r in mask)
+    cls = cls2(aa, kd, src)
+    if src in ("reread_hdu", "reread_file"):        # DERIVED by a read: the content of a first object, unmasked
+        assert not anym
+        o0 = mk_obj2(aa, kd, vals, mask0 if mask0 else mask, sc, msrc=msrc, sk=sk)
+        if src == "reread_hdu": return cls.from_primary_hdu(primary_hdu=o0.hdu_for_output)
+        d = tempfile.mkdtemp(prefix="pav_c16_src_")
+        try:
+            f = os.path.join(d, "src.fits"); o0.output_to_fits(file_path=f)
+            return cls.from_fits(file_path=f, hdu=0, pixel_scales=ps)
+        finally: shutil.rmtree(d, ignore_errors=True)
+    if src in ("full", "ones", "zeros"):
+        c = float(vals[0][0]); shp = (len(vals), len(vals[0]))
+        assert not anym and all(x == c for r in vals for x in r)
+        if src == "full": return cls.full(fill_value=c, shape_native=shp, pixel_scales=ps)
+        assert c == (1.0 if src == "ones" else 0.0)
+        return getattr(cls, src)(shape_native=shp, pixel_scales=ps)
+    if src == "apply_mask":
+        return aa.Array2D.no_mask(values=np.array(vals, dtype="float64"), pixel_scales=ps).apply_mask(mask=mk_mask2(aa, mask, sc, msrc, sk))
+    if src == "slim":
+        v = np.array([x for rv, rb in zip(vals, mask) for x, b in zip(rv, rb) if not b], dtype="float64")
+        return cls(values=v, mask=mk_mask2(aa, mask, sc, msrc, sk))
+    if src == "slimlist":
+        v = [float(x) for rv, rb in zip(vals, mask) for x, b in zip(rv, rb) if not b]
+        return cls(values=v, mask=mk_mask2(aa, mask, sc, msrc, sk))
+    if src == "self":
+        m = mk_mask2(aa, mask, sc, msrc, sk)
+        return cls(values=cls(values=np.array(vals, dtype="float64"), mask=m), mask=m)
+    v = as_values(vals, src)
+    if src is None and msrc is None and sk is None:       # the phase-1 construction, unchanged
+        if kd == "kernel": return aa.Kernel2D.no_mask(values=v, pixel_scales=tuple(sc))
+        if not anym and (len(vals) + len(vals[0])) % 2 == 0: return aa.Array2D.no_mask(values=v, pixel_scales=tuple(sc))
+        return aa.Array2D(values=v, mask=aa.Mask2D(mask=np.array(mask, dtype=bool), pixel_scales=tuple(sc)))
+    if not anym and msrc is None and src != "sub": return cls.no_mask(values=v, pixel_scales=ps)
+    return cls(values=v, mask=mk_mask2(aa, mask, sc, msrc, sk))
+def mk_obj1(aa, vals, mask, sc, src=None, msrc=None, sk=None, mask0=None):
+    ps = as_sc1(sc, sk)
+    cls = subclass(aa, "Array1D") if src == "sub" else aa.Array1D
+    if src == "reread_hdu":
+        assert not any(mask)
+        return cls.from_primary_hdu(primary_hdu=mk_obj1(aa, vals, mask0 if mask0 else mask, sc, msrc=msrc, sk=sk).hdu_for_output)
+    if src in ("full", "ones", "zeros"):
+        c = float(vals[0]); assert not any(mask) and all(x == c for x in vals)
+        if src == "full": return cls.full(fill_value=c, shape_native=len(vals), pixel_scales=ps)
+        assert c == (1.0 if src == "ones" else 0.0)
+        return getattr(cls, src)(shape_native=len(vals), pixel_scales=ps)
+    if src == "slim": return cls(values=np.array([x for x, b in zip(vals, mask) if not b], dtype="float64"), mask=mk_mask1(aa, mask, sc, msrc, sk))
+    if src == "self":
+        m = mk_mask1(aa, mask, sc, msrc, sk)
+        return cls(values=cls(values=np.array(vals, dtype="float64"), mask=m), mask=m)
+    v = as_values(vals, src)
+    if src is None and msrc is None and sk is None:
+        if not any(mask) and len(vals) % 2 == 0: return aa.Array1D.no_mask(values=np.array(vals, dtype="float64"), pixel_scales=float(sc))
+        return aa.Array1D(values=np.array(vals, dtype="float64"), mask=aa.Mask1D(mask=np.array(mask, dtype=bool), pixel_scales=float(sc)))
+    if not any(mask) and msrc is None and src != "sub": return cls.no_mask(values=v, pixel_scales=ps)
+    return cls(values=v, mask=mk_mask1(aa, mask, sc, msrc, sk))
+
+def fingerprint(x):
+    """a comparable deep fingerprint of an argument object (dict / ndarray / HDU / settings object)"""
+    if isinstance(x, np.ndarray): return ("nd", str(x.dtype), x.shape, x.tobytes())
+    if isinstance(x, dict): return ("dict", [(k, fingerprint(v)) for k, v in x.items()])
+    if isinstance(x, (list, tuple)): return (type(x).__name__, [fingerprint(v) for v in x])
+    if hasattr(x, "__dict__") and not isinstance(x, type): return ("obj", type(x).__name__, [(k, fingerprint(v)) for k, v in sorted(vars(x).items())])
+    return repr(x)
+
+def kinds_of(inp):
+    return {"mk": {"src": inp.get("src"), "msrc": inp.get("msrc"), "sk": inp.get("sk"), "mask0": inp.get("mask0")}, "pk": inp.get("pk")}
 
 def run_case(inp):
     aa = import_aa()
+    py_bad = None
     from autoarray.structures.arrays import array_2d_util, array_1d_util
     op = inp["op"]; flip = inp.get("flip", False)
     finding = None; out = None; extra = None
@@ -218,8 +351,8 @@ def run_case(inp):
     if op == "util2":
         arr = inp["arr"]; hd = inp["hd"]; cells = len(arr) * len(arr[0])
         with sandbox(flip, inp["fs0"]) as root:
-            path = fpath(root, inp["p"], inp["abs"])
-            the_array = np.array(arr, dtype="float64"); the_dict = (dict(hd) if hd else None)
+            path = as_path(fpath(root, inp["p"], inp["abs"]), inp.get("pk"))
+            the_array = as_values(arr, inp.get("src")); the_dict = (dict(hd) if hd else None)
             w = call(array_2d_util.numpy_array_2d_to_fits, array_2d=the_array, file_path=path,
                      overwrite=inp["ow"], header_dict=the_dict)
             fsa = snapshot(root)
@@ -243,8 +376,8 @@ def run_case(inp):
     elif op == "util1":
         arr = inp["arr"]; hd = inp["hd"]; cells = len(arr)
         with sandbox(flip, inp["fs0"]) as root:
-            path = fpath(root, inp["p"], inp["abs"])
-            the_array = np.array(arr, dtype="float64"); the_dict = (dict(hd) if hd else None)
+            path = as_path(fpath(root, inp["p"], inp["abs"]), inp.get("pk"))
+            the_array = as_values(arr, inp.get("src")); the_dict = (dict(hd) if hd else None)
             w = call(array_1d_util.numpy_array_1d_to_fits, array_1d=the_array, file_path=path,
                      overwrite=inp["ow"], header_dict=the_dict)
             fsa = snapshot(root)
@@ -265,52 +398,74 @@ def run_case(inp):
                       f"{coexn(wx2)} {cfs(fsa2, crow)} {cfres(r2, crow)}))")]
     elif op == "file2":
         vals, mask, sc, kd = inp["vals"], inp["mask"], inp["sc"], inp["kd"]; cells = len(vals) * len(vals[0])
+        K = kinds_of(inp)
         with sandbox(flip, inp["fs0"]) as root:
-            path = fpath(root, inp["p"], inp["abs"])
-            obj = mk_obj2(aa, kd, vals, mask, sc)
+            path = as_path(fpath(root, inp["p"], inp["abs"]), K["pk"])
+            obj = mk_obj2(aa, kd, vals, mask, sc, **K["mk"])
+            cls = cls2(aa, kd, K["mk"]["src"]); ps = as_sc2(sc, K["mk"]["sk"]); ps_fp = fingerprint(ps)
             w = call(obj.output_to_fits, file_path=path, overwrite=inp["ow"])
             fsa = snapshot(root)
-            if kd == "kernel": r = call(aa.Kernel2D.from_fits, file_path=path, hdu=inp["k"], pixel_scales=tuple(sc))
-            else: r = call(aa.Array2D.from_fits, file_path=path, pixel_scales=tuple(sc), hdu=inp["k"])
-            r = okmap(r, obs_arr2)
+            rd = lambda: okmap(call(cls.from_fits, file_path=path, hdu=inp["k"], pixel_scales=ps) if kd == "kernel" else
+                               call(cls.from_fits, file_path=path, pixel_scales=ps, hdu=inp["k"]), obs_arr2)
+            r = rd()
+            if inp.get("twice"):      # the same file read a second time; the tree and the caller's arguments afterwards
+                r2 = rd(); fsa2 = snapshot(root)
+                if fingerprint(ps) != ps_fp: py_bad = "from_fits changed its pixel_scales argument"
         wx = None if w[0] == "ok" else w[1]
         out = [wx, fsa, r]
-        coq = (f"KFile2 {cbool(flip)} {'KKernel' if kd == 'kernel' else 'KArray'} {carr(vals)} {cbarr(mask)} {csc2(sc)} "
-               f"{cfs(inp['fs0'], carr)} {cpath(inp['p'])} {cbool(inp['ow'])} {cz(inp['k'])} {coexn(wx)} {cfs(fsa, carr)} {cfres(r, cobs2)}")
+        head = (f"KFile2 {cbool(flip)} {'KKernel' if kd == 'kernel' else 'KArray'} {carr(vals)} {cbarr(mask)} {csc2(sc)} "
+                f"{cfs(inp['fs0'], carr)} {cpath(inp['p'])} {cbool(inp['ow'])} {cz(inp['k'])} {coexn(wx)} ")
+        coq = head + f"{cfs(fsa, carr)} {cfres(r, cobs2)}"
+        if inp.get("twice"): out += [fsa2, r2]; extra = ["(KBase (" + head + f"{cfs(fsa2, carr)} {cfres(r2, cobs2)}))"]
     elif op == "hdu2":
         vals, mask, sc, kd = inp["vals"], inp["mask"], inp["sc"], inp["kd"]; cells = len(vals) * len(vals[0])
+        K = kinds_of(inp)
         with sandbox(flip):
-            obj = mk_obj2(aa, kd, vals, mask, sc)
+            obj = mk_obj2(aa, kd, vals, mask, sc, **K["mk"])
             h = obj.hdu_for_output
             raw = raw_of(h)
-            cls = aa.Kernel2D if kd == "kernel" else aa.Array2D
+            cls = cls2(aa, kd, K["mk"]["src"])
             r = okmap(call(cls.from_primary_hdu, primary_hdu=h), lambda o: obs_arr2(o, False))
+            if inp.get("twice"):      # the caller's HDU after the read, and read a second time
+                raw2 = raw_of(h); r2 = okmap(call(cls.from_primary_hdu, primary_hdu=h), lambda o: obs_arr2(o, False))
         out = [raw, r]
-        coq = (f"KHdu2 {cbool(flip)} {'KKernel' if kd == 'kernel' else 'KArray'} {carr(vals)} {cbarr(mask)} {csc2(sc)} "
-               f"{chdu(raw, carr)} {cfres(r, cobs2)}")
+        head = f"KHdu2 {cbool(flip)} {'KKernel' if kd == 'kernel' else 'KArray'} {carr(vals)} {cbarr(mask)} {csc2(sc)} "
+        coq = head + f"{chdu(raw, carr)} {cfres(r, cobs2)}"
+        if inp.get("twice"): out += [raw2, r2]; extra = ["(KBase (" + head + f"{chdu(raw2, carr)} {cfres(r2, cobs2)}))"]
     elif op == "filem2":
         mask, sc = inp["mask"], inp["sc"]; cells = len(mask) * len(mask[0])
         rs = inp.get("rs")
         with sandbox(flip, inp["fs0"]) as root:
-            path = fpath(root, inp["p"], inp["abs"])
-            m = aa.Mask2D(mask=np.array(mask, dtype=bool), pixel_scales=tuple(sc))
+            K = kinds_of(inp)
+            path = as_path(fpath(root, inp["p"], inp["abs"]), K["pk"])
+            m = mk_mask2(aa, mask, sc, K["mk"]["msrc"], K["mk"]["sk"])
+            mcls = subclass(aa, "Mask2D") if K["mk"]["msrc"] == "sub" else aa.Mask2D; ps = as_sc2(sc, K["mk"]["sk"])
             w = call(m.output_to_fits, file_path=path, overwrite=inp["ow"])
             fsa = snapshot(root)
-            r = okmap(call(aa.Mask2D.from_fits, file_path=path, pixel_scales=tuple(sc), hdu=inp["k"],
-                           resized_mask_shape=(tuple(rs) if rs else None), invert=inp["inv"]), obs_m2)
+            rd = lambda: okmap(call(mcls.from_fits, file_path=path, pixel_scales=ps, hdu=inp["k"],
+                                    resized_mask_shape=(tuple(rs) if rs else None), invert=inp["inv"]), obs_m2)
+            r = rd()
+            if inp.get("twice"): r2 = rd(); fsa2 = snapshot(root)
         wx = None if w[0] == "ok" else w[1]
         out = [wx, fsa, r]
-        coq = (f"KFileM2 {cbool(flip)} {cbarr(mask)} {csc2(sc)} {cfs(inp['fs0'], carr)} {cpath(inp['p'])} {cbool(inp['ow'])} {cz(inp['k'])} "
-               f"{copt(rs, lambda t: ctup([cz(t[0]), cz(t[1])]))} {cbool(inp['inv'])} {coexn(wx)} {cfs(fsa, carr)} {cfres(r, cobsm2)}")
+        head = (f"KFileM2 {cbool(flip)} {cbarr(mask)} {csc2(sc)} {cfs(inp['fs0'], carr)} {cpath(inp['p'])} {cbool(inp['ow'])} {cz(inp['k'])} "
+                f"{copt(rs, lambda t: ctup([cz(t[0]), cz(t[1])]))} {cbool(inp['inv'])} {coexn(wx)} ")
+        coq = head + f"{cfs(fsa, carr)} {cfres(r, cobsm2)}"
+        if inp.get("twice"): out += [fsa2, r2]; extra = ["(KBase (" + head + f"{cfs(fsa2, carr)} {cfres(r2, cobsm2)}))"]
     elif op == "hdum2":
         mask, sc = inp["mask"], inp["sc"]; cells = len(mask) * len(mask[0])
         with sandbox(flip):
-            m = aa.Mask2D(mask=np.array(mask, dtype=bool), pixel_scales=tuple(sc))
+            K = kinds_of(inp)
+            m = mk_mask2(aa, mask, sc, K["mk"]["msrc"], K["mk"]["sk"])
+            mcls = subclass(aa, "Mask2D") if K["mk"]["msrc"] == "sub" else aa.Mask2D
             h = m.hdu_for_output
             raw = raw_of(h)
-            r = okmap(call(aa.Mask2D.from_primary_hdu, primary_hdu=h), obs_m2)
+            r = okmap(call(mcls.from_primary_hdu, primary_hdu=h), obs_m2)
+            if inp.get("twice"): raw2 = raw_of(h); r2 = okmap(call(mcls.from_primary_hdu, primary_hdu=h), obs_m2)
         out = [raw, r]
-        coq = f"KHduM2 {cbool(flip)} {cbarr(mask)} {csc2(sc)} {chdu(raw, carr)} {cfres(r, cobsm2)}"
+        head = f"KHduM2 {cbool(flip)} {cbarr(mask)} {csc2(sc)} "
+        coq = head + f"{chdu(raw, carr)} {cfres(r, cobsm2)}"
+        if inp.get("twice"): out += [raw2, r2]; extra = ["(KBase (" + head + f"{chdu(raw2, carr)} {cfres(r2, cobsm2)}))"]
     elif op == "multi2":
         from astropy.io import fits
         objs = inp["objs"]; cells = 4
@@ -340,45 +495,67 @@ def run_case(inp):
     elif op == "file1":
         vals, mask, sc = inp["vals"], inp["mask"], inp["sc"]; cells = len(vals)
         with sandbox(flip, inp["fs0"]) as root:
-            path = fpath(root, inp["p"], inp["abs"])
-            obj = mk_obj1(aa, vals, mask, sc)
+            K = kinds_of(inp)
+            path = as_path(fpath(root, inp["p"], inp["abs"]), K["pk"])
+            obj = mk_obj1(aa, vals, mask, sc, **K["mk"])
+            cls = subclass(aa, "Array1D") if K["mk"]["src"] == "sub" else aa.Array1D; ps = as_sc1(sc, K["mk"]["sk"])
             w = call(obj.output_to_fits, file_path=path, overwrite=inp["ow"])
             fsa = snapshot(root)
-            r = okmap(call(aa.Array1D.from_fits, file_path=path, pixel_scales=float(sc), hdu=inp["k"]), obs_arr1)
+            rd = lambda: okmap(call(cls.from_fits, file_path=path, pixel_scales=ps, hdu=inp["k"]), obs_arr1)
+            r = rd()
+            if inp.get("twice"): r2 = rd(); fsa2 = snapshot(root)
         wx = None if w[0] == "ok" else w[1]
         out = [wx, fsa, r]
-        coq = (f"KFile1 {cbool(flip)} {crow(vals)} {cbrow(mask)} {cq(fr(sc))} {cfs(inp['fs0'], crow)} {cpath(inp['p'])} {cbool(inp['ow'])} "
-               f"{cz(inp['k'])} {coexn(wx)} {cfs(fsa, crow)} {cfres(r, cobs1)}")
+        head = (f"KFile1 {cbool(flip)} {crow(vals)} {cbrow(mask)} {cq(fr(sc))} {cfs(inp['fs0'], crow)} {cpath(inp['p'])} {cbool(inp['ow'])} "
+                f"{cz(inp['k'])} {coexn(wx)} ")
+        coq = head + f"{cfs(fsa, crow)} {cfres(r, cobs1)}"
+        if inp.get("twice"): out += [fsa2, r2]; extra = ["(KBase (" + head + f"{cfs(fsa2, crow)} {cfres(r2, cobs1)}))"]
     elif op == "hdu1":
         vals, mask, sc = inp["vals"], inp["mask"], inp["sc"]; cells = len(vals)
         with sandbox(flip):
-            obj = mk_obj1(aa, vals, mask, sc)
+            K = kinds_of(inp)
+            obj = mk_obj1(aa, vals, mask, sc, **K["mk"])
+            cls = subclass(aa, "Array1D") if K["mk"]["src"] == "sub" else aa.Array1D
             h = obj.hdu_for_output
             raw = raw_of(h)
-            r = okmap(call(aa.Array1D.from_primary_hdu, primary_hdu=h), lambda o: obs_arr1(o, False))
+            r = okmap(call(cls.from_primary_hdu, primary_hdu=h), lambda o: obs_arr1(o, False))
+            if inp.get("twice"): raw2 = raw_of(h); r2 = okmap(call(cls.from_primary_hdu, primary_hdu=h), lambda o: obs_arr1(o, False))
         out = [raw, r]
-        coq = f"KHdu1 {cbool(flip)} {crow(vals)} {cbrow(mask)} {cq(fr(sc))} {chdu(raw, crow)} {cfres(r, cobs1)}"
+        head = f"KHdu1 {cbool(flip)} {crow(vals)} {cbrow(mask)} {cq(fr(sc))} "
+        coq = head + f"{chdu(raw, crow)} {cfres(r, cobs1)}"
+        if inp.get("twice"): out += [raw2, r2]; extra = ["(KBase (" + head + f"{chdu(raw2, crow)} {cfres(r2, cobs1)}))"]
     elif op == "filem1":
         mask, sc = inp["mask"], inp["sc"]; cells = len(mask)
         with sandbox(flip, inp["fs0"]) as root:
-            path = fpath(root, inp["p"], inp["abs"])
-            m = aa.Mask1D(mask=np.array(mask, dtype=bool), pixel_scales=float(sc))
+            K = kinds_of(inp)
+            path = as_path(fpath(root, inp["p"], inp["abs"]), K["pk"])
+            m = mk_mask1(aa, mask, sc, K["mk"]["msrc"], K["mk"]["sk"])
+            mcls = subclass(aa, "Mask1D") if K["mk"]["msrc"] == "sub" else aa.Mask1D; ps = as_sc1(sc, K["mk"]["sk"])
             w = call(m.output_to_fits, file_path=path, overwrite=inp["ow"])
             fsa = snapshot(root)
-            r = okmap(call(aa.Mask1D.from_fits, file_path=path, pixel_scales=float(sc), hdu=inp["k"]), obs_m1)
+            rd = lambda: okmap(call(mcls.from_fits, file_path=path, pixel_scales=ps, hdu=inp["k"]), obs_m1)
+            r = rd()
+            if inp.get("twice"): r2 = rd(); fsa2 = snapshot(root)
         wx = None if w[0] == "ok" else w[1]
         out = [wx, fsa, r]
-        coq = (f"KFileM1 {cbool(flip)} {cbrow(mask)} {cq(fr(sc))} {cfs(inp['fs0'], crow)} {cpath(inp['p'])} {cbool(inp['ow'])} {cz(inp['k'])} "
-               f"{coexn(wx)} {cfs(fsa, crow)} {cfres(r, cobsm1)}")
+        head = (f"KFileM1 {cbool(flip)} {cbrow(mask)} {cq(fr(sc))} {cfs(inp['fs0'], crow)} {cpath(inp['p'])} {cbool(inp['ow'])} {cz(inp['k'])} "
+                f"{coexn(wx)} ")
+        coq = head + f"{cfs(fsa, crow)} {cfres(r, cobsm1)}"
+        if inp.get("twice"): out += [fsa2, r2]; extra = ["(KBase (" + head + f"{cfs(fsa2, crow)} {cfres(r2, cobsm1)}))"]
     elif op == "hdum1":
         mask, sc = inp["mask"], inp["sc"]; cells = len(mask)
         with sandbox(flip):
-            m = aa.Mask1D(mask=np.array(mask, dtype=bool), pixel_scales=float(sc))
+            K = kinds_of(inp)
+            m = mk_mask1(aa, mask, sc, K["mk"]["msrc"], K["mk"]["sk"])
+            mcls = subclass(aa, "Mask1D") if K["mk"]["msrc"] == "sub" else aa.Mask1D
             h = m.hdu_for_output
             raw = raw_of(h)
-            r = okmap(call(aa.Mask1D.from_primary_hdu, primary_hdu=h), obs_m1)
+            r = okmap(call(mcls.from_primary_hdu, primary_hdu=h), obs_m1)
+            if inp.get("twice"): raw2 = raw_of(h); r2 = okmap(call(mcls.from_primary_hdu, primary_hdu=h), obs_m1)
         out = [raw, r]
-        coq = f"KHduM1 {cbool(flip)} {cbrow(mask)} {cq(fr(sc))} {chdu(raw, crow)} {cfres(r, cobsm1)}"
+        head = f"KHduM1 {cbool(flip)} {cbrow(mask)} {cq(fr(sc))} "
+        coq = head + f"{chdu(raw, crow)} {cfres(r, cobsm1)}"
+        if inp.get("twice"): out += [raw2, r2]; extra = ["(KBase (" + head + f"{chdu(raw2, crow)} {cfres(r2, cobsm1)}))"]
     elif op == "imaging":
         mask, sc = inp["mask"], inp["sc"]; cells = 9
         with sandbox(flip, inp["fs0"]) as root:
@@ -400,11 +577,187 @@ def run_case(inp):
                f"{cfres(r, lambda t: ctup([carr(t[0]), carr(t[1]), carr(t[2])]))}")
     elif op in ("hist2", "hist1", "histm2", "histm1"):
         return run_hist(aa, inp)
+    elif op in ("sess2", "sess1"):
+        return run_session(aa, inp)
+    elif op == "sib":
+        return run_sibling(aa, inp)
+    elif op == "imghdus":
+        return run_imaging_hdus(aa, inp)
     else:
         raise ValueError(op)
-    res = {"coq": "(KBase (" + coq + "))", "out": out, "py_ok": None, "nontrivial": cells > 1, "kind": op + (":flip" if flip else "")}
+    kk = "".join(f":{k}={inp[k]}" for k in ("src", "msrc", "sk", "pk") if inp.get(k))
+    res = {"coq": "(KBase (" + coq + "))", "out": out, "py_ok": (False if py_bad else None), "nontrivial": cells > 1, "kind": op + (":flip" if flip else "") + kk}
+    if py_bad: res["py_note"] = py_bad
     if finding: res["finding"] = finding
     if extra: res["extra_coq"] = extra
+    return res
+
+# ----------------------------------------------------------------------------- sessions: several objects, one directory tree
+def run_session(aa, inp):
+    """Several objects of several classes live at once and are written / read in an interleaved order in ONE tree: the same
+    object goes to several paths, the same path receives several objects (overwrite), files are re-read after later
+    writes, a file written by one class is read by another, with pixel_scales arguments that differ from the header.
+    Every act becomes one Coq case whose initial file system is the REAL tree left by the previous act."""
+    from autoconf import conf
+    dim2 = inp["op"] == "sess2"; flip = inp["flip"]
+    cdata, cob, cobm = (carr, cobs2, cobsm2) if dim2 else (crow, cobs1, cobsm1)
+    cases = []; out = []; py_bad = None
+    with sandbox(flip, inp["fs0"]) as root:
+        objs = []
+        for o in inp["objs"]:
+            K = {"src": o.get("src"), "msrc": o.get("msrc"), "sk": o.get("sk")}
+            if o["kd"] == "mask": objs.append((mk_mask2 if dim2 else mk_mask1)(aa, o["mask"], o["sc"], K["msrc"], K["sk"]))
+            elif dim2: objs.append(mk_obj2(aa, o["kd"], o["vals"], o["mask"], o["sc"], **K))
+            else: objs.append(mk_obj1(aa, o["vals"], o["mask"], o["sc"], **K))
+        fs_cur = inp["fs0"]
+        for a in inp["acts"]:
+            t = a[0]
+            if t == "flip":
+                flip = bool(a[1]); conf.instance["general"]["fits"]["flip_for_ds9"] = flip; continue
+            if t == "w":                                       # ["w", object index, path, overwrite, hdu, absolute, path kind]
+                _, i, pth, ow, k, ab, pk = a
+                o = inp["objs"][i]; obj = objs[i]; sc = o["sc"]
+                path = as_path(fpath(root, pth, ab), pk)
+                w = call(obj.output_to_fits, file_path=path, overwrite=ow); wx = None if w[0] == "ok" else w[1]
+                fsa = snapshot(root)
+                if o["kd"] == "mask":
+                    if dim2:
+                        r = okmap(call(aa.Mask2D.from_fits, file_path=path, pixel_scales=tuple(sc), hdu=k), obs_m2)
+                        c = (f"KFileM2 {cbool(flip)} {cbarr(o['mask'])} {csc2(sc)} {cfs(fs_cur, carr)} {cpath(pth)} {cbool(ow)} {cz(k)} None false "
+                             f"{coexn(wx)} {cfs(fsa, carr)} {cfres(r, cobsm2)}")
+                    else:
+                        r = okmap(call(aa.Mask1D.from_fits, file_path=path, pixel_scales=float(sc), hdu=k), obs_m1)
+                        c = (f"KFileM1 {cbool(flip)} {cbrow(o['mask'])} {cq(fr(sc))} {cfs(fs_cur, crow)} {cpath(pth)} {cbool(ow)} {cz(k)} "
+                             f"{coexn(wx)} {cfs(fsa, crow)} {cfres(r, cobsm1)}")
+                elif dim2:
+                    cls = cls2(aa, o["kd"], o.get("src"))
+                    r = okmap(call(cls.from_fits, file_path=path, hdu=k, pixel_scales=tuple(sc)), obs_arr2)
+                    c = (f"KFile2 {cbool(flip)} {'KKernel' if o['kd'] == 'kernel' else 'KArray'} {carr(o['vals'])} {cbarr(o['mask'])} {csc2(sc)} "
+                         f"{cfs(fs_cur, carr)} {cpath(pth)} {cbool(ow)} {cz(k)} {coexn(wx)} {cfs(fsa, carr)} {cfres(r, cobs2)}")
+                else:
+                    r = okmap(call(aa.Array1D.from_fits, file_path=path, pixel_scales=float(sc), hdu=k), obs_arr1)
+                    c = (f"KFile1 {cbool(flip)} {crow(o['vals'])} {cbrow(o['mask'])} {cq(fr(sc))} {cfs(fs_cur, crow)} {cpath(pth)} {cbool(ow)} "
+                         f"{cz(k)} {coexn(wx)} {cfs(fsa, crow)} {cfres(r, cobs1)}")
+                cases.append("(KBase (" + c + "))"); out.append([wx, fsa, r]); fs_cur = fsa
+            elif t == "r":                                     # ["r", reader class, path, pixel_scales argument, hdu, absolute, path kind, invert]
+                _, kd, pth, sc, k, ab, pk, inv = a
+                path = as_path(fpath(root, pth, ab), pk)
+                if kd == "mask":
+                    if dim2:
+                        r = okmap(call(aa.Mask2D.from_fits, file_path=path, pixel_scales=tuple(sc), hdu=k, invert=inv), obs_m2)
+                        c = f"KReadM2 {cbool(flip)} {cfs(fs_cur, carr)} {cpath(pth)} {csc2(sc)} {cz(k)} {cbool(inv)} {cfres(r, cobsm2)}"
+                    else:
+                        r = okmap(call(aa.Mask1D.from_fits, file_path=path, pixel_scales=float(sc), hdu=k), obs_m1)
+                        c = f"KReadM1 {cfs(fs_cur, crow)} {cpath(pth)} {cq(fr(sc))} {cz(k)} {cfres(r, cobsm1)}"
+                elif dim2:
+                    cls = aa.Kernel2D if kd == "kernel" else aa.Array2D
+                    r = okmap(call(cls.from_fits, file_path=path, hdu=k, pixel_scales=tuple(sc)), obs_arr2)
+                    c = f"KRead2 {cbool(flip)} {'KKernel' if kd == 'kernel' else 'KArray'} {cfs(fs_cur, carr)} {cpath(pth)} {csc2(sc)} {cz(k)} {cfres(r, cobs2)}"
+                else:
+                    r = okmap(call(aa.Array1D.from_fits, file_path=path, pixel_scales=float(sc), hdu=k), obs_arr1)
+                    c = f"KRead1 {cfs(fs_cur, crow)} {cpath(pth)} {cq(fr(sc))} {cz(k)} {cfres(r, cobs1)}"
+                cases.append("(" + c + ")"); out.append(r)
+            else: raise ValueError(t)
+        if norm_fs(snapshot(root)) != norm_fs(fs_cur): py_bad = "a read changed the directory tree"
+    res = {"coq": cases[0], "extra_coq": cases[1:], "out": out, "py_ok": (False if py_bad else None), "nontrivial": len(cases) > 1,
+           "kind": inp["op"] + (":flip" if inp["flip"] else "")}
+    if py_bad: res["py_note"] = py_bad
+    return res
+
+# ----------------------------------------------------------------------------- siblings that share the util functions
+def run_sibling(aa, inp):
+    """Visibilities / VisibilitiesNoiseMap (.hdu_for_output, .output_to_fits -> .from_fits) and Grid2D (AbstractNDArray.output_to_fits ->
+    Grid2D.from_fits) go through numpy_array_2d_to_fits /
+    numpy_array_2d_via_fits_from with a headerless array: each write + read is a KUtil2 case on the array the object stands for
+    ([N, 2] = (real, imag); a [H, W, 2] grid is compared as [H, 2 W], which commutes with flipping axis 0)."""
+    from autoarray.structures.arrays import array_2d_util
+    flip = inp["flip"]; kind = inp["kind"]; K = inp.get("src")
+    cases = []; out = []; py_bad = None
+    def flat(a):
+        a = np.array(a, dtype="float64")
+        return a.reshape(a.shape[0], -1).tolist()
+    def flat_fs(fs): return {"dirs": fs["dirs"], "files": [[p, [{"data": flat(h["data"]), "hdr": h["hdr"]} for h in c]] for p, c in fs["files"]]}
+    def vis_of(cls, pairs):
+        if K == "complex": return cls(visibilities=np.array([complex(a, b) for a, b in pairs]))
+        if K == "complexlist": return cls(visibilities=[complex(a, b) for a, b in pairs])
+        if K == "list": return cls(visibilities=[[float(a), float(b)] for a, b in pairs])
+        if K == "f32": return cls(visibilities=np.array(pairs, dtype="float32"))
+        return cls(visibilities=np.array(pairs, dtype="float64"))
+    def one(write, arr, pth, ow, k, read, fs_cur, root):
+        path = as_path(fpath(root, pth, inp["abs"]), inp.get("pk"))
+        w = call(write, path, ow); wx = None if w[0] == "ok" else w[1]
+        fsa = flat_fs(snapshot(root))
+        r = okmap(call(read, path, k), flat)
+        hr = okmap(call(array_2d_util.header_obj_from, file_path=path, hdu=k), pix_cards)
+        cases.append(f"(KBase (KUtil2 {cbool(flip)} {cfs(fs_cur, carr)} {carr(flat(arr))} {cpath(pth)} {cbool(ow)} {chdr([])} {cz(k)} "
+                     f"{coexn(wx)} {cfs(fsa, carr)} {cfres(r, carr)} {cfres(hr, chdr)}))")
+        out.append([wx, fsa, r, hr]); return fsa
+    with sandbox(flip, inp["fs0"]) as root:
+        fs_cur = inp["fs0"]; ow = inp["ow"]; k = inp["k"]
+        if kind in ("vis", "visnoise"):
+            cls = aa.Visibilities if kind == "vis" else aa.VisibilitiesNoiseMap
+            v = vis_of(cls, inp["vis"])
+            h = v.hdu_for_output; raw = raw_of(h)            # the HDU route: data = in_array (flipped under the flag), no cards
+            exp = list(reversed(inp["vis"])) if flip else inp["vis"]
+            if flat(raw["data"]) != flat(exp) or raw["hdr"]: py_bad = f"hdu_for_output: {raw}"
+            out.append(raw)
+            for pth in inp["paths"]:                          # the same object to every path
+                fs_cur = one(lambda p_, o_: v.output_to_fits(file_path=p_, overwrite=o_), inp["vis"], pth, ow, k,
+                             lambda p_, k_: np.array(cls.from_fits(file_path=p_, hdu=k_).in_array), fs_cur, root)
+        elif kind == "grid":
+            g = np.array(inp["grid"], dtype="float64")       # [H, W, 2]
+            obj = aa.Grid2D.no_mask(values=as_values(inp["grid"], K) if K in ("f32", "fortran") else (inp["grid"] if K == "list" else g), pixel_scales=tuple(inp["sc"]))
+            for pth in inp["paths"]:
+                fs_cur = one(lambda p_, o_: obj.output_to_fits(file_path=p_, overwrite=o_), g, pth, ow, k,
+                             lambda p_, k_: np.array(aa.Grid2D.from_fits(file_path=p_, pixel_scales=tuple(inp["sc"])).native) if k_ == 0 else
+                                            array_2d_util.numpy_array_2d_via_fits_from(file_path=p_, hdu=k_), fs_cur, root)
+        else: raise ValueError(kind)
+    res = {"coq": cases[0] if cases else None, "extra_coq": cases[1:], "out": out, "py_ok": (False if py_bad else None), "nontrivial": True,
+           "kind": "sib:" + kind + (":flip" if flip else "") + (f":src={K}" if K else "")}
+    if py_bad: res["py_note"] = py_bad
+    return res
+
+# ----------------------------------------------------------------------------- Imaging.from_fits: the three hdu arguments
+def run_imaging_hdus(aa, inp):
+    """Imaging.from_fits(data_hdu, noise_map_hdu, psf_hdu) on pre-existing multi-HDU files, the three indices varied
+    independently; psf_path may be None.  Each loaded array is one KRead2 case (the psf files hold kernels that sum to one, so
+    the normalisation in Imaging.__init__ is exact).  The shared default `over_sampling` object is fingerprinted and the call is
+    made twice."""
+    flip = inp["flip"]; sc = inp["sc"]; fs0 = inp["fs0"]; py_bad = None
+    with sandbox(flip, fs0) as root:
+        pd, pn, pp = inp["pd"], inp["pn"], inp["pp"]
+        f = lambda q: None if q is None else as_path(fpath(root, q, inp["abs"]), inp.get("pk"))
+        fp0 = fingerprint(aa.Imaging.from_fits.__func__.__defaults__)
+        go = lambda: call(aa.Imaging.from_fits, pixel_scales=tuple(sc), data_path=f(pd), noise_map_path=f(pn), data_hdu=inp["kd"], noise_map_hdu=inp["kn"],
+                          psf_path=f(pp), psf_hdu=inp["kp"], check_noise_map=False)
+        from autoarray.structures.arrays import array_2d_util
+        def psf_obs(k_):      # Imaging.__init__ rebuilds the (normalised) psf without its header: the cards are read with header_obj_from
+            o = obs_arr2(k_, False)
+            return o[:3] + [pix_cards(array_2d_util.header_obj_from(file_path=f(pp), hdu=0)), pix_cards(array_2d_util.header_obj_from(file_path=f(pp), hdu=inp["kp"]))]
+        parts = lambda im: [obs_arr2(im.data), obs_arr2(im.noise_map), None if im.psf is None else psf_obs(im.psf)]
+        r = okmap(go(), parts)
+        r2 = okmap(go(), parts)
+        if r2 != r: py_bad = "the second identical call of Imaging.from_fits differs from the first"
+        if fingerprint(aa.Imaging.from_fits.__func__.__defaults__) != fp0: py_bad = "Imaging.from_fits changed a shared default argument"
+        if norm_fs(snapshot(root)) != norm_fs(fs0): py_bad = "a read changed the directory tree"
+    cases = []
+    if r[0] == "ok":
+        for q, k, kd, o in ((pd, inp["kd"], "KArray", r[1][0]), (pn, inp["kn"], "KArray", r[1][1]), (pp, inp["kp"], "KKernel", r[1][2])):
+            if q is None:
+                if o is not None: py_bad = "psf_path=None gave a psf"
+                continue
+            cases.append(f"(KRead2 {cbool(flip)} {kd} {cfs(fs0, carr)} {cpath(q)} {csc2(sc)} {cz(k)} {cfres(('ok', o), cobs2)})")
+    else:
+        # the first failing reader in the code's order (data, noise map, psf) decides the exception
+        for q, k, kd in ((pd, inp["kd"], "KArray"), (pn, inp["kn"], "KArray"), (pp, inp["kp"], "KKernel")):
+            if q is None: continue
+            hl = dict((tuple(e[0]), e[1]) for e in fs0["files"]).get(tuple(q))
+            if hl is None or not (-len(hl) <= k < len(hl)):
+                cases.append(f"(KRead2 {cbool(flip)} {kd} {cfs(fs0, carr)} {cpath(q)} {csc2(sc)} {cz(k)} {cfres(r, cobs2)})"); break
+        if not cases: py_bad = py_bad or f"Imaging.from_fits raised {r[1]} although every file and hdu exists"
+    res = {"coq": cases[0] if cases else None, "extra_coq": cases[1:], "out": [r], "py_ok": (False if py_bad else None), "nontrivial": True,
+           "kind": "imghdus" + (":flip" if flip else "")}
+    if py_bad: res["py_note"] = py_bad
     return res
 
 # ----------------------------------------------------------------------------- histories of one object
@@ -439,26 +792,26 @@ def run_hist(aa, inp):
         try:
             st["native_binned_only"] = nbo
             if op == "hist2":
-                m = aa.Mask2D(mask=np.array(mask, dtype=bool), pixel_scales=tuple(sc))
-                cls = aa.Kernel2D if inp["kd"] == "kernel" else aa.Array2D
-                obj = cls(values=np.array(inp["vals"], dtype="float64"), mask=m, store_native=sn)
+                m = mk_mask2(aa, mask, sc, inp.get("msrc"))
+                cls = cls2(aa, inp["kd"], inp.get("src"))
+                obj = cls(values=as_values(inp["vals"], inp.get("src")), mask=m, store_native=sn)     # the input KIND (int64 / float32 / list / strided ...) must not show later
                 peek = lambda o: np.array(o.native, dtype="float64").tolist()
                 rd_hdu = lambda h: okmap(call(cls.from_primary_hdu, primary_hdu=h), lambda o: obs_arr2(o, False))
                 if inp["kd"] == "kernel": rd_file = lambda p, k: okmap(call(cls.from_fits, file_path=p, hdu=k, pixel_scales=tuple(sc)), obs_arr2)
                 else: rd_file = lambda p, k: okmap(call(cls.from_fits, file_path=p, pixel_scales=tuple(sc), hdu=k), obs_arr2)
             elif op == "hist1":
-                m = aa.Mask1D(mask=np.array(mask, dtype=bool), pixel_scales=float(sc))
-                obj = aa.Array1D(values=np.array(inp["vals"], dtype="float64"), mask=m, store_native=sn)
+                m = mk_mask1(aa, mask, sc, inp.get("msrc"))
+                obj = (subclass(aa, "Array1D") if inp.get("src") == "sub" else aa.Array1D)(values=as_values(inp["vals"], inp.get("src")), mask=m, store_native=sn)
                 peek = lambda o: np.array(o.native, dtype="float64").tolist()
                 rd_hdu = lambda h: okmap(call(aa.Array1D.from_primary_hdu, primary_hdu=h), lambda o: obs_arr1(o, False))
                 rd_file = lambda p, k: okmap(call(aa.Array1D.from_fits, file_path=p, pixel_scales=float(sc), hdu=k), obs_arr1)
             elif op == "histm2":
-                obj = aa.Mask2D(mask=np.array(mask, dtype=bool), pixel_scales=tuple(sc))
+                obj = mk_mask2(aa, mask, sc, inp.get("msrc"))
                 peek = lambda o: np.array(o).astype("float64").tolist()
                 rd_hdu = lambda h: okmap(call(aa.Mask2D.from_primary_hdu, primary_hdu=h), obs_m2)
                 rd_file = lambda p, k: okmap(call(aa.Mask2D.from_fits, file_path=p, pixel_scales=tuple(sc), hdu=k), obs_m2)
             else:
-                obj = aa.Mask1D(mask=np.array(mask, dtype=bool), pixel_scales=float(sc))
+                obj = mk_mask1(aa, mask, sc, inp.get("msrc"))
                 peek = lambda o: np.array(o).astype("float64").tolist()
                 rd_hdu = lambda h: okmap(call(aa.Mask1D.from_primary_hdu, primary_hdu=h), obs_m1)
                 rd_file = lambda p, k: okmap(call(aa.Mask1D.from_fits, file_path=p, pixel_scales=float(sc), hdu=k), obs_m1)
@@ -508,7 +861,7 @@ def run_hist(aa, inp):
     else:
         cells = len(mask)
         coq = f"KHistM1 {cbool(flip)} {cbrow(mask)} {cq(fr(sc))} {cfs(inp['fs0'], crow)} {csteps} {clist([cobsv(o, crow, cobsm1) for o in obs])}"
-    kind = op + (":nbo" if nbo else ":sn" if sn else "") + (":flip" if flip else "")
+    kind = op + (":nbo" if nbo else ":sn" if sn else "") + (":flip" if flip else "") + "".join(f":{k}={inp[k]}" for k in ("src", "msrc") if inp.get(k))
     return {"coq": "(" + coq + ")", "out": obs, "py_ok": None, "nontrivial": cells > 1 and len(obs) > 0, "kind": kind}
 
 # ----------------------------------------------------------------------------- generators
@@ -555,6 +908,8 @@ def all_masks(h, w):
         yield [list(bits[y * w:(y + 1) * w]) for y in range(h)]
 
 def gen_inputs(tier, rng):
+    if os.environ.get("C16_STREAMS") == "p3":      # development aid (mutation screening): the phase-3 streams alone, a SUBSET of the tier
+        yield from gen_phase3(tier, rng); return
     big = tier == "thorough"
     E = {"dirs": [], "files": []}
     smax = 6 if big else 4
@@ -685,6 +1040,8 @@ def gen_inputs(tier, rng):
         else: yield {"op": "file2", "flip": flip, "kd": "kernel", "vals": vals, "mask": falses(h, w), "sc": sc, "fs0": fs0, "p": p, "abs": ab, "ow": ow, "k": 0}
     # 8. histories of one object (derived arrays, re-used objects, in-place edits): see gen_hist
     yield from gen_hist(tier, rng)
+    # 9.-13. phase 3: input kinds, sessions, sibling classes, Imaging hdu arguments, scale extremes
+    yield from gen_phase3(tier, rng)
 
 # ----------------------------------------------------------------------------- generators of histories
 EPS = 2.0 ** -30
@@ -987,3 +1344,288 @@ def gen_hist(tier, rng):
             inp = {"op": "hist2", "flip": flip, "nbo": nbo, "sn": sn, "kd": rng.choice(["array", "kernel"]), "vals": vals, "mask": mask,
                    "sc": [s, s] if rng.random() < 0.7 else [s, rng.choice(SCALES)], "fs0": fs0, "steps": steps}
         if hist_ok(inp): made += 1; yield inp
+
+
+# ----------------------------------------------------------------------------- phase 3 generators
+def content_int(h, w): return [[float((3 + y * w + x) * (-1 if (y + x) % 3 == 1 else 1)) for x in range(w)] for y in range(h)]
+def const2(h, w, c): return [[c] * w for _ in range(h)]
+KSHAPES = [(2, 3, [[False, True, False], [True, False, False]]), (3, 2, [[False, False], [True, False], [False, True]]),
+           (1, 4, [[True, False, False, True]]), (4, 1, [[False], [True], [False], [False]]),
+           (3, 3, [[True, False, False], [False, True, False], [False, False, False]])]
+SRC_A2 = [None, "list", "int", "f32", "fortran", "view", "slim", "slimlist", "self", "sub", "apply_mask", "reread_hdu", "reread_file", "full", "ones", "zeros"]
+SRC_K2 = ["list", "int", "f32", "fortran", "view", "sub", "reread_hdu", "full", "ones"]
+MSRC = ["list", "int", "float", "fortran", "invert", "self", "sub", "reread", "all_false"]
+SRC_A1 = [None, "list", "int", "f32", "view", "slim", "self", "sub", "reread_hdu", "full", "ones", "zeros"]
+MSRC1 = ["list", "int", "float", "invert", "sub", "reread", "all_false"]
+FOREIGN = ["int16", "int64", "float32", "uint8", "int32", ">f8"]
+
+def kind_case2(src, kd, h, w, mask, j):
+    """logical (vals, mask) of a 2-D object built the `src` way"""
+    if src in ("full",): vals, mask = const2(h, w, [2.5, -7.0, 2.0 ** -40][j % 3]), falses(h, w)
+    elif src == "ones": vals, mask = const2(h, w, 1.0), falses(h, w)
+    elif src == "zeros": vals, mask = const2(h, w, 0.0), falses(h, w)
+    elif src == "int": vals = content_int(h, w)
+    else: vals = content2(h, w)
+    extra = {}
+    if kd == "kernel": mask = falses(h, w)
+    if src in ("reread_hdu", "reread_file"):
+        if kd != "kernel": extra["mask0"] = mask; vals = zero_filled2(vals, mask)
+        mask = falses(h, w)
+    return vals, mask, extra
+
+def gen_phase3(tier, rng):
+    big = tier == "thorough"
+    E = {"dirs": [], "files": []}
+    j = 0
+    # 9a. every way of building the object x class x route x flip (shape rotates; thorough: every shape)
+    for kd, srcs in (("array", SRC_A2), ("kernel", SRC_K2)):
+        for src in srcs:
+            for flip in (False, True):
+                for route in ("file2", "hdu2"):
+                    j += 1
+                    for (h, w, mask) in (KSHAPES if big else [KSHAPES[j % 5]]):
+                        vals, mk, extra = kind_case2(src, kd, h, w, mask, j)
+                        sc = [[0.5, 0.5], [1.0, 2.0], [0.25, 0.25]][j % 3]
+                        inp = {"op": route, "flip": flip, "kd": kd, "vals": vals, "mask": mk, "sc": sc, "twice": True, **extra}
+                        if src: inp["src"] = src
+                        if route == "file2": inp.update({"fs0": E, "p": [[10], [1, 10]][j % 2], "abs": j % 4 < 2, "ow": False, "k": [0, -1][j % 2]})
+                        yield inp
+    # 9b. the mask of an array / a Mask2D built every way
+    for msrc in MSRC:
+        for flip in (False, True):
+            j += 1
+            for (h, w, mask) in (KSHAPES if big else [KSHAPES[j % 5], KSHAPES[(j + 2) % 5]]):
+                mk = falses(h, w) if msrc == "all_false" else mask
+                sc = [[0.5, 0.5], [2.0, 1.0]][j % 2]
+                yield {"op": "hdu2", "flip": flip, "kd": "array", "vals": content2(h, w), "mask": mk, "sc": sc, "msrc": msrc, "twice": True}
+                yield {"op": "file2", "flip": flip, "kd": "array", "vals": content2(h, w), "mask": mk, "sc": sc, "msrc": msrc, "src": ["slim", "list", None][j % 3],
+                       "fs0": E, "p": [10], "abs": False, "ow": False, "k": 0}
+                yield {"op": "hdum2", "flip": flip, "mask": mk, "sc": sc, "msrc": msrc, "twice": True}
+                yield {"op": "filem2", "flip": flip, "mask": mk, "sc": sc, "msrc": msrc, "fs0": E, "p": [1, 10], "abs": j % 2 == 0, "ow": False, "k": 0, "rs": None, "inv": j % 3 == 0,
+                       "twice": True}
+    # 9c. 1-D
+    for src in SRC_A1:
+        for flip in (False, True):
+            j += 1
+            n = 3 + j % 4
+            mask = [(i % 3 == 1) for i in range(n)]
+            vals = content_int(1, n)[0] if src == "int" else content1(n)
+            extra = {}
+            if src in ("full", "ones", "zeros"): vals, mask = [{"full": -2.5, "ones": 1.0, "zeros": 0.0}[src]] * n, [False] * n
+            if src == "reread_hdu": extra["mask0"] = mask; vals = zero_filled1(vals, mask); mask = [False] * n
+            base = {"flip": flip, "vals": vals, "mask": mask, "sc": [0.5, 2.0, 0.25][j % 3], "twice": True, **extra}
+            if src: base["src"] = src
+            yield {"op": "hdu1", **base}
+            yield {"op": "file1", **base, "fs0": E, "p": [[10], [1, 10]][j % 2], "abs": j % 2 == 0, "ow": False, "k": 0}
+    for msrc in MSRC1:
+        for flip in (False, True):
+            j += 1
+            n = 2 + j % 4
+            mask = [False] * n if msrc == "all_false" else [(i % 3 == 1) for i in range(n)]
+            yield {"op": "hdum1", "flip": flip, "mask": mask, "sc": 0.5, "msrc": msrc, "twice": True}
+            yield {"op": "filem1", "flip": flip, "mask": mask, "sc": 0.25, "msrc": msrc, "fs0": E, "p": [10], "abs": False, "ow": False, "k": 0, "twice": True}
+            yield {"op": "hdu1", "flip": flip, "vals": content1(n), "mask": mask, "sc": 2.0, "msrc": msrc, "src": ["slim", None][j % 2]}
+    # 9d. pixel scales handed over as float / list / numpy scalars / 1-tuple; paths as pathlib.Path / "./name" on every file-system scenario
+    vals = content2(2, 3); mask = [[False, True, False], [False, False, False]]
+    for sk in ("float", "list", "np"):
+        for flip in (False, True):
+            for sc in ([[0.5, 0.5]] if sk == "float" else [[0.5, 0.5], [0.5, 0.25]]):
+                # (numpy-scalar scales that are EQUAL come back from an in-memory HDU as one numpy scalar, which convert_pixel_scales_2d
+                #  [type(x) is float] does not turn into a pair: outside C16's anchors, reported to the coordinator, not generated)
+                if not (sk == "np" and sc[0] == sc[1]):
+                    yield {"op": "hdu2", "flip": flip, "kd": "array", "vals": vals, "mask": mask, "sc": sc, "sk": sk}
+                    yield {"op": "hdu2", "flip": flip, "kd": "kernel", "vals": vals, "mask": falses(2, 3), "sc": sc, "sk": sk}
+                    yield {"op": "hdum2", "flip": flip, "mask": mask, "sc": sc, "sk": sk}
+                yield {"op": "file2", "flip": flip, "kd": "array", "vals": vals, "mask": mask, "sc": sc, "sk": sk, "fs0": E, "p": [10], "abs": False, "ow": False, "k": 0, "twice": True}
+                yield {"op": "filem2", "flip": flip, "mask": mask, "sc": sc, "sk": sk, "fs0": E, "p": [10], "abs": False, "ow": False, "k": 0, "rs": None, "inv": False}
+    for flip in (False, True):
+        yield {"op": "hdu1", "flip": flip, "vals": content1(4), "mask": [False, True, False, False], "sc": 0.5, "sk": "tuple"}
+        yield {"op": "file1", "flip": flip, "vals": content1(4), "mask": [False, True, False, False], "sc": 0.5, "sk": "tuple", "fs0": E, "p": [10], "abs": False, "ow": False, "k": 0}
+        yield {"op": "hdum1", "flip": flip, "mask": [False, True, False], "sc": 0.5, "sk": "tuple"}
+    for pk in ("Path", "dot"):
+        for si, (fs0, p) in enumerate(fs_scenarios(2)):
+            for ow in (False, True):
+                j += 1; flip = j % 2 == 0; ab = (pk == "Path" and j % 3 == 0)
+                t = j % 4
+                if t == 0: yield {"op": "file2", "flip": flip, "kd": "array", "vals": vals, "mask": mask, "sc": [0.5, 0.5], "fs0": fs0, "p": p, "abs": ab, "ow": ow, "k": 0, "pk": pk}
+                elif t == 1: yield {"op": "filem2", "flip": flip, "mask": mask, "sc": [2.0, 2.0], "fs0": fs0, "p": p, "abs": ab, "ow": ow, "k": 0, "rs": None, "inv": False, "pk": pk}
+                elif t == 2: yield {"op": "util2", "flip": flip, "fs0": fs0, "arr": vals, "p": p, "abs": ab, "ow": ow, "hd": [["PIXSCALE", 1.5]], "k": 0, "pk": pk, "again": [3, 11]}
+                else: yield {"op": "file2", "flip": flip, "kd": "kernel", "vals": content2(3, 3), "mask": falses(3, 3), "sc": [1.0, 1.0], "fs0": fs0, "p": p, "abs": ab, "ow": ow, "k": 0, "pk": pk}
+        for si, (fs0, p) in enumerate(fs_scenarios(1)):
+            for ow in (False, True):
+                j += 1; ab = (pk == "Path" and j % 3 == 0)
+                t = j % 3
+                if t == 0: yield {"op": "file1", "flip": ow, "vals": content1(4), "mask": [False, False, True, False], "sc": 0.5, "fs0": fs0, "p": p, "abs": ab, "ow": ow, "k": 0, "pk": pk}
+                elif t == 1: yield {"op": "filem1", "flip": ow, "mask": [True, False, False], "sc": 0.5, "fs0": fs0, "p": p, "abs": ab, "ow": ow, "k": 0, "pk": pk}
+                else: yield {"op": "util1", "flip": ow, "fs0": fs0, "arr": content1(5), "p": p, "abs": ab, "ow": ow, "hd": [], "k": 0, "pk": pk, "again": [3, 11]}
+    # 9e. util functions on int / float32 / strided / Fortran-ordered ndarrays and lists (written twice)
+    for src in ("int", "f32", "fortran", "view"):
+        for flip in (False, True):
+            a2 = content_int(3, 2) if src == "int" else content2(3, 2)
+            yield {"op": "util2", "flip": flip, "fs0": E, "arr": a2, "p": [10], "abs": False, "ow": False, "hd": [["PIXSCALE", 0.5]], "k": 0, "src": src, "again": [1, 11]}
+            if src != "fortran":
+                yield {"op": "util1", "flip": flip, "fs0": E, "arr": a2[0] + a2[1], "p": [10], "abs": False, "ow": False, "hd": [], "k": 0, "src": src, "again": [1, 11]}
+    # 9f. FOREIGN files (integer / float32 / unsigned data, two HDUs): read through a refused write, every hdu index
+    for dt in (FOREIGN if big else FOREIGN[:4]):
+        pos = dt == "uint8"
+        d2 = [[3.0, 7.0, 2.0], [1.0, 0.0, 9.0]] if pos else [[3.0, -7.0, 2.0], [-1.0, 0.0, 9.0]]
+        e2 = [[5.0, 4.0], [8.0, 6.0], [0.0, 1.0]]
+        old2 = {"dirs": [], "files": [[[10], [{"data": d2, "hdr": [["PIXSCALE", 3.0]], "dt": dt}, {"data": e2, "hdr": [["PIXSCALEY", 4.0], ["PIXSCALEX", 5.0]], "dt": dt}]]]}
+        old1 = {"dirs": [], "files": [[[10], [{"data": d2[0], "hdr": [["PIXSCALE", 3.0]], "dt": dt}, {"data": e2[0] + e2[1], "hdr": [["PIXSCALE", 4.0]], "dt": dt}]]]}
+        for k in (0, 1, -1) if not big else range(-3, 3):
+            j += 1; flip = j % 2 == 0
+            yield {"op": "file2", "flip": flip, "kd": "array", "vals": vals, "mask": mask, "sc": [0.5, 0.5], "fs0": old2, "p": [10], "abs": False, "ow": False, "k": k, "twice": True}
+            yield {"op": "file2", "flip": not flip, "kd": "kernel", "vals": vals, "mask": falses(2, 3), "sc": [0.5, 0.25], "fs0": old2, "p": [10], "abs": False, "ow": False, "k": k}
+            yield {"op": "filem2", "flip": flip, "mask": mask, "sc": [0.5, 0.5], "fs0": old2, "p": [10], "abs": False, "ow": False, "k": k, "rs": None, "inv": j % 3 == 0}
+            yield {"op": "util2", "flip": flip, "fs0": old2, "arr": vals, "p": [10], "abs": False, "ow": False, "hd": [], "k": k}
+            yield {"op": "file1", "flip": flip, "vals": content1(3), "mask": [False] * 3, "sc": 1.0, "fs0": old1, "p": [10], "abs": False, "ow": False, "k": k}
+            yield {"op": "filem1", "flip": flip, "mask": [True, False], "sc": 1.0, "fs0": old1, "p": [10], "abs": False, "ow": False, "k": k}
+            yield {"op": "util1", "flip": flip, "fs0": old1, "arr": content1(3), "p": [10], "abs": False, "ow": False, "hd": [], "k": k}
+    # 9g. histories on objects built from int64 / float32 / list / strided input: a buffer that inherits the input dtype truncates or rounds LATER
+    hsteps = [
+        [["op", "add", EPS], ["peek"], ["hdu"], ["file", [10], False, 0, False]],
+        [["op", "mul", 0.5], ["op", "add", 2.0 ** -40], ["hdu"], ["peek"]],
+        [["op", "div", 4.0], ["op", "add", 0.25], ["native"], ["hdu"]],
+        None,                                             # in-place edit with a non-integer, tiny-fraction value
+        [["copy"], ["op", "rsub", 2.0 ** -33], ["slim"], ["hdu"], ["file", [1, 10], False, 0, True]],
+    ]
+    # (on /repo a NATIVELY stored buffer keeps the dtype of the input -- store_native exists to avoid copies -- so float32 / int64 input
+    #  stored natively computes in that dtype; the round trip itself is unaffected.  For those combinations the steps are exact in
+    #  float32 and in int64; a SLIM-stored buffer is float64 whatever the input, and gets the steps that expose an inherited dtype.)
+    hsteps_narrow = [
+        [["op", "add", 5.0], ["peek"], ["hdu"], ["file", [10], False, 0, False]],
+        [["op", "mul", 0.5], ["hdu"], ["peek"]],
+        [["op", "rsub", 100.0], ["native"], ["hdu"]],
+        None,
+        [["copy"], ["op", "neg"], ["slim"], ["hdu"], ["file", [1, 10], False, 0, True]],
+    ]
+    for src in ("int", "f32", "list", "view", "fortran", "sub"):
+        for si, (sn, nbo) in enumerate(STORE):
+            for ti, tpl in enumerate(hsteps):
+                j += 1; flip = j % 2 == 0
+                h, w, mask = KSHAPES[j % 5]
+                u, m = pick_pixels(mask)
+                native = sn or nbo
+                narrow = native and src in ("int", "f32")
+                if narrow: tpl = hsteps_narrow[ti]
+                sv = 7.0 if narrow else 0.5 + EPS
+                steps = tpl if tpl is not None else [(["set2", u[0], u[1], sv] if native else ["set1", u[2], sv]), ["hdu"], ["op", "add", 1.0], ["peek"]]
+                inp = {"op": "hist2", "flip": flip, "nbo": nbo, "sn": sn, "kd": "kernel" if j % 5 == 0 else "array", "vals": content_int(h, w) if src == "int" else content2(h, w),
+                       "mask": mask, "sc": [1.0, 1.0], "fs0": E, "steps": [list(x) for x in steps], "src": src}
+                if hist_ok(inp): yield inp
+                if si < 2 and (big or ti % 2 == 0):
+                    n = 3 + j % 3; m1 = [(i % 3 == 1) for i in range(n)]
+                    un = [i for i, b in enumerate(m1) if not b]
+                    st1 = tpl if tpl is not None else [(["set2", 0, un[-1], sv] if sn else ["set1", len(un) - 1, sv]), ["hdu"], ["op", "add", 1.0], ["peek"]]
+                    if src != "fortran":
+                        inp = {"op": "hist1", "flip": flip, "sn": sn, "vals": content_int(1, n)[0] if src == "int" else content1(n), "mask": m1, "sc": 0.5, "fs0": E,
+                               "steps": [list(x) for x in st1], "src": src}
+                        if hist_ok(inp): yield inp
+    for msrc in ("int", "float", "list", "self", "sub", "reread"):
+        for flip in (False, True):
+            h, w, mask = KSHAPES[(j + flip) % 5]; u, m = pick_pixels(mask); j += 1
+            yield {"op": "histm2", "flip": flip, "mask": mask, "sc": [0.5, 0.5], "fs0": E, "msrc": msrc,
+                   "steps": [["hdu"], ["set2", u[0], u[1], 1.0], ["hdu"], ["file", [10], False, 0, False], ["peek"]]}
+            if msrc in ("int", "float", "list", "sub", "reread"):
+                yield {"op": "histm1", "flip": flip, "mask": [False, True, False, False], "sc": 0.25, "fs0": E, "msrc": msrc,
+                       "steps": [["hdu"], ["set1", 3, 1.0], ["hdu"], ["file", [10], False, 0, False], ["peek"]]}
+    # 10. sessions
+    A = {"kd": "array", "vals": content2(2, 3), "mask": [[False, True, False], [True, False, False]], "sc": [0.5, 0.5]}
+    B = {"kd": "array", "vals": content2(3, 2, rng), "mask": [[False, False], [True, False], [False, False]], "sc": [1.0, 2.0]}
+    M = {"kd": "mask", "mask": [[False, True], [True, True], [False, False]], "sc": [0.25, 0.25]}
+    Kk = {"kd": "kernel", "vals": content2(3, 3), "mask": falses(3, 3), "sc": [2.0, 2.0]}
+    C = {"kd": "array", "vals": content2(2, 3, rng), "mask": falses(2, 3), "sc": [0.5, 0.5], "src": "sub"}
+    W = lambda i, p, ow=False, k=0, ab=False, pk=None: ["w", i, p, ow, k, ab, pk]
+    R = lambda kd, p, sc, k=0, ab=False, pk=None, inv=False: ["r", kd, p, sc, k, ab, pk, inv]
+    sess2 = [
+        ([A, B, M, Kk], [W(0, [10]), W(1, [1, 10]), R("array", [10], [3.0, 3.0]), W(1, [10], True), R("array", [10], [0.5, 0.5]), R("array", [1, 10], [1.0, 2.0], -1),
+                         W(0, [1, 10]), R("kernel", [1, 10], [0.5, 0.25]), W(2, [11]), R("mask", [11], [0.25, 0.25]), R("array", [11], [1.0, 1.0]),
+                         R("mask", [10], [2.0, 2.0], 0, False, None, True), W(3, [11], True, 0, True), R("mask", [11], [1.0, 1.0]), R("kernel", [11], [2.0, 2.0], 0, True, "Path")]),
+        ([A, C], [W(0, [10]), ["flip", None], R("array", [10], [0.5, 0.5]), W(0, [11]), W(1, [10], True), ["flip", None], R("array", [11], [0.5, 0.5]), R("array", [10], [0.5, 1.5]),
+                  W(1, [2, 10]), W(0, [2, 10], True), R("array", [2, 10], [0.5, 0.5], 0, False, "dot")]),
+        ([B, A, C], [W(0, [10]), W(1, [11]), W(0, [1, 10]), W(2, [11], True), W(0, [2, 3, 10], False, -1), R("array", [10], [1.0, 2.0], 1), R("array", [12], [1.0, 1.0]),
+                     R("array", [11], [7.0, 7.0], -1), R("kernel", [1, 10], [1.0, 2.0], -2), R("mask", [13], [1.0, 1.0]), R("mask", [2, 3, 10], [1.0, 1.0], 1)]),
+        ([M, Kk, A], [W(0, [10]), W(1, [10], True), W(0, [10], True), R("mask", [10], [0.25, 0.25]), W(2, [10]), R("array", [10], [0.5, 0.5]), W(2, [10], True),
+                      R("array", [10], [0.5, 0.5]), R("mask", [10], [0.5, 0.5], 0, False, None, True)]),
+    ]
+    for objs, acts in sess2:
+        for flip in (False, True):
+            yield {"op": "sess2", "flip": flip, "fs0": E, "objs": objs, "acts": fix_flips(acts, flip)}
+            yield {"op": "sess2", "flip": flip, "fs0": fs_scenarios(2)[8][0], "objs": objs, "acts": fix_flips(acts, flip)}
+    A1 = {"kd": "array", "vals": content1(4), "mask": [False, True, False, False], "sc": 0.5}
+    B1 = {"kd": "array", "vals": content1(3, rng), "mask": [False, False, False], "sc": 2.0, "src": "list"}
+    M1 = {"kd": "mask", "mask": [True, False, False, True, False], "sc": 0.25}
+    sess1 = [
+        ([A1, B1, M1], [W(0, [10]), W(1, [1, 10]), R("array", [10], 3.0), W(1, [10], True), R("array", [10], 0.5), W(0, [1, 10]), R("array", [1, 10], 0.5, -1),
+                        W(2, [11]), R("mask", [11], 0.25), R("array", [11], 1.0), R("mask", [10], 2.0), W(0, [11], True, 0, True, "Path"), R("mask", [11], 1.0), R("array", [12], 1.0),
+                        R("array", [10], 1.0, 1)]),
+    ]
+    for objs, acts in sess1:
+        for flip in (False, True):
+            yield {"op": "sess1", "flip": flip, "fs0": E, "objs": objs, "acts": acts}
+            yield {"op": "sess1", "flip": flip, "fs0": fs_scenarios(1)[8][0], "objs": objs, "acts": acts}
+    for q in range(150 if big else 16):                        # random sessions
+        objs = []
+        for _ in range(rng.randint(2, 4)):
+            h, w = rng.randint(1, 4), rng.randint(1, 4)
+            kd = rng.choice(["array", "array", "kernel", "mask"])
+            mk = rand_mask(h, w, rng) if kd != "kernel" else falses(h, w)
+            s_ = rng.choice(SCALES); sc = [s_, s_] if rng.random() < 0.6 else [s_, rng.choice(SCALES)]
+            o = {"kd": kd, "mask": mk, "sc": sc}
+            if kd != "mask":
+                o["vals"] = content2(h, w, rng)
+                if rng.random() < 0.3: o["src"] = rng.choice(["list", "f32", "fortran", "view", "sub"] + (["slim"] if kd == "array" else []))
+            objs.append(o)
+        paths = [[10], [11], [1, 10], [1, 2, 10]]
+        acts = []
+        for _ in range(rng.randint(4, 9)):
+            x = rng.random()
+            if x < 0.5: acts.append(W(rng.randrange(len(objs)), rng.choice(paths), rng.random() < 0.5, rng.choice([0, 0, -1, 1]), rng.random() < 0.3, rng.choice([None, None, "Path", "dot"])))
+            elif x < 0.9:
+                s_ = rng.choice(SCALES)
+                acts.append(R(rng.choice(["array", "kernel", "mask"]), rng.choice(paths), [s_, rng.choice([s_, 1.0])], rng.choice([0, 0, -1, 1]), rng.random() < 0.3,
+                              rng.choice([None, "Path"]), rng.random() < 0.3))
+            else: acts.append(["flip", None])
+        if not any(a[0] != "flip" for a in acts): acts.append(W(0, [10]))
+        flip = rng.random() < 0.5
+        yield {"op": "sess2", "flip": flip, "fs0": E if q % 2 else rng.choice(fs_scenarios(2))[0], "objs": objs, "acts": fix_flips(acts, flip)}
+    # 11. sibling classes on the same util functions
+    vis = [[1.0, -2.0], [3.5, 4.0], [-5.0, 0.25], [0.0, 7.0], [2.0 ** -30, -(2.0 ** 40)]]
+    noise = [[1.0, 2.0], [0.5, 4.0], [8.0, 0.25], [2.0, 2.0], [1.0, 0.5]]
+    for kind in ("vis", "visnoise"):
+        for src in (None, "complex", "complexlist", "list", "f32"):
+            for flip in (False, True):
+                j += 1
+                n = 1 + j % 5
+                yield {"op": "sib", "kind": kind, "flip": flip, "vis": (noise if kind == "visnoise" else vis)[:n], "src": src, "fs0": E if j % 2 else fs_scenarios(2)[1][0],
+                       "paths": [[10], [1, 10]], "ow": j % 3 == 0, "k": [0, -1, 0, 1][j % 4], "abs": j % 2 == 0, "pk": [None, "Path", "dot"][j % 3]}
+    for flip in (False, True):
+        for hi, (h, w) in enumerate(((2, 3), (3, 1), (1, 1), (1, 4))):
+            g = [[[float(10 * y + x) + 0.5, -float(y + 10 * x) - 0.25] for x in range(w)] for y in range(h)]
+            yield {"op": "sib", "kind": "grid", "flip": flip, "grid": g, "sc": [0.5, 0.25], "src": [None, "list", "f32", "fortran"][hi], "fs0": E if hi % 2 else {"dirs": [], "files": [[[10], [old_hdu(2, 2)]]]}, "paths": [[10], [2, 10]],
+                   "ow": hi % 2 == 0, "k": 0, "abs": hi % 2 == 1, "pk": [None, "Path"][hi % 2]}
+    # 12. Imaging.from_fits: data_hdu / noise_map_hdu / psf_hdu varied independently on multi-HDU files
+    H = lambda data, s, dt=None: ({"data": data, "hdr": [["PIXSCALE", s]]} if dt is None else {"data": data, "hdr": [["PIXSCALE", s]], "dt": dt})
+    img_fs = {"dirs": [[1]], "files": [
+        [[10], [H(content2(2, 3), 3.0), H(content_int(2, 3), 4.0, "int32")]],
+        [[1, 11], [H([[1.0, 2.0, 4.0], [0.5, 8.0, 0.25]], 5.0), H([[2.0, 2.0, 1.0], [1.0, 4.0, 4.0]], 6.0, "float32"), H([[8.0, 1.0, 1.0], [2.0, 0.5, 4.0]], 7.0)]],
+        [[12], [H([[0.5, 0.25, 0.25]], 8.0), H([[0.5], [0.125], [0.375]], 9.0)]]]}
+    for kd_ in (0, 1, -1, 2):
+        for kn in (0, 1, 2, -1, 3):
+            for kp in (0, 1, -1, -3):
+                j += 1
+                if not big and (kd_ + 2 * kn + 3 * kp) % 3 != 0 and not (kd_ != kn and kn != kp and kd_ != kp and j % 2): continue
+                yield {"op": "imghdus", "flip": j % 2 == 0, "sc": [[0.5, 0.5], [0.5, 0.25]][j % 2], "fs0": img_fs, "pd": [10], "pn": [1, 11], "pp": [12] if j % 5 else None,
+                       "kd": kd_, "kn": kn, "kp": kp, "abs": j % 3 == 0, "pk": [None, "Path"][j % 2]}
+    yield {"op": "imghdus", "flip": False, "sc": [1.0, 1.0], "fs0": img_fs, "pd": [13], "pn": [1, 11], "pp": [12], "kd": 0, "kn": 0, "kp": 0, "abs": False}
+    # 13. pixel-scale extremes and near ties
+    vals = content2(2, 3); mask = [[False, True, False], [False, False, False]]
+    for sc in ([1e-8, 1e-8], [3e-9, 1e10], [12345.678, 12345.678], [0.5, 0.5000000000000001], [1.0, 0.9999999999999999], [1e10, 1e10], [2.0 ** -20, 2.0 ** -20]):
+        for flip in (False, True):
+            yield {"op": "hdu2", "flip": flip, "kd": "array", "vals": vals, "mask": mask, "sc": sc}
+            yield {"op": "hdum2", "flip": flip, "mask": mask, "sc": sc}
+            yield {"op": "file2", "flip": flip, "kd": "kernel", "vals": vals, "mask": falses(2, 3), "sc": sc, "fs0": E, "p": [10], "abs": False, "ow": False, "k": 0}
+            yield {"op": "filem2", "flip": flip, "mask": mask, "sc": sc, "fs0": E, "p": [10], "abs": False, "ow": False, "k": 0, "rs": None, "inv": False}
+            if sc[0] == sc[1]:
+                yield {"op": "hdu1", "flip": flip, "vals": content1(3), "mask": [False, True, False], "sc": sc[0]}
+                yield {"op": "filem1", "flip": flip, "mask": [False, True, False], "sc": sc[0], "fs0": E, "p": [10], "abs": False, "ow": False, "k": 0}
